@@ -446,11 +446,13 @@ class CSSStyleDeclaration(CSS2Properties, cssutils.util.Base2):
             the effective :class:`~cssutils.css.Property` object.
         """
         nname = self._normalize(name)
+        # literal names are stored lower-cased, compare the given name likewise
+        lname = name.lower() if name else name
         found = None
         for item in reversed(self.seq):
             val = item.value
             if isinstance(val, Property):
-                if (normalize and nname == val.name) or name == val.literalname:
+                if (normalize and nname == val.name) or lname == val.literalname:
                     if val.priority:
                         return val
                     elif not found:
@@ -585,9 +587,12 @@ class CSSStyleDeclaration(CSS2Properties, cssutils.util.Base2):
                     newseq.appendItem(item)
         else:
             # remove all properties with literalname == name
+            # (literal names are stored lower-cased)
+            lname = name.lower() if name else name
             for item in self.seq:
                 if not (
-                    isinstance(item.value, Property) and item.value.literalname == name
+                    isinstance(item.value, Property)
+                    and item.value.literalname == lname
                 ):
                     newseq.appendItem(item)
         self._setSeq(newseq)
@@ -656,7 +661,7 @@ class CSSStyleDeclaration(CSS2Properties, cssutils.util.Base2):
                         property.propertyValue = newp.propertyValue.cssText
                         property.priority = newp.priority
                         return
-                    elif property.literalname == name:
+                    elif property.literalname == newp.literalname:
                         property.propertyValue = newp.propertyValue.cssText
                         property.priority = newp.priority
                         return
